@@ -44,6 +44,9 @@ ASSUMPTIONS = [
 
 SKY_FRAMES = ['fk5', 'fk4', 'icrs', 'galactic', 'supergalactic',
               'geocentrictrueecliptic']
+# frames a region's coordinates may be in (FK5 at another equinox too: CRTF
+# cannot name it, what must come back is the same place on the sky)
+REGION_FRAMES = SKY_FRAMES + ['fk5_j1975']
 RADUNITS = {'deg': 1.0, 'arcsec': 3600.0, 'arcmin': 60.0, 'rad': math.pi / 180}
 SYMBOLS = ['.', 'o', 'v', '^', '<', '>', 's', 'p', '*', 'h', 'H', '+', 'x',
            'D', 'd', '|', '_', '1', '2']
@@ -116,12 +119,12 @@ def region_strategy():
                     G.line('near', False), G.text('near', False),
                     G.point('near', False))
     asz = GS.angsizes(0.5, 3.6e4)
-    sky = st.one_of(GS.circle(asz, SKY_FRAMES, False),
-                    GS.circle_annulus(asz, SKY_FRAMES, False),
-                    GS.ellipse(asz, SKY_FRAMES, False),
-                    GS.rectangle(asz, SKY_FRAMES, False),
-                    GS.polygon(SKY_FRAMES, False), GS.line(SKY_FRAMES, False),
-                    GS.text(SKY_FRAMES, False), GS.point(SKY_FRAMES, False))
+    sky = st.one_of(GS.circle(asz, REGION_FRAMES, False),
+                    GS.circle_annulus(asz, REGION_FRAMES, False),
+                    GS.ellipse(asz, REGION_FRAMES, False),
+                    GS.rectangle(asz, REGION_FRAMES, False),
+                    GS.polygon(REGION_FRAMES, False), GS.line(REGION_FRAMES, False),
+                    GS.text(REGION_FRAMES, False), GS.point(REGION_FRAMES, False))
 
     def deco(rs):
         def mk(t):
@@ -189,7 +192,10 @@ def compare(ctx, tag, A, B, nd, radunit, coordsys):
                       lambda: f'{(xa, ya)} -> {(xb, yb)}')
         elif isinstance(va, SkyCoord):
             fr = vb.frame
-            vt = va.transform_to(fr)
+            # (attributes given explicitly: transform_to lets the
+            # coordinate's own equinox win over frame defaults)
+            vt = va.transform_to(type(fr)(**{a: getattr(fr, a)
+                                             for a in fr.frame_attributes}))
             la, ba = np.asarray(vt.spherical.lon.deg), np.asarray(vt.spherical.lat.deg)
             lb, bb = np.asarray(vb.spherical.lon.deg), np.asarray(vb.spherical.lat.deg)
             ctx.check(la.shape == lb.shape, f'{tag} | {par} changes length')
@@ -260,7 +266,7 @@ class RoundTrip(Relation):
         if sky:
             coordsys = sp['coordsys']
             if sp['own_frame']:
-                coordsys = _frame_of(specs[0])
+                coordsys = _frame_of(specs[0]).replace('fk5_j1975', 'fk5')
         else:
             coordsys = 'image'
         if not sp.get('probe'):
